@@ -255,6 +255,7 @@ type result struct {
 	Toks  []tok    ` + "`json:\"toks\"`" + `
 	Names []string ` + "`json:\"names\"`" + `
 	Hung  bool     ` + "`json:\"hung\"`" + `
+	EOFAfterError bool ` + "`json:\"eof_after_error\"`" + `
 }
 
 func tokenName(i int) (s string) {
@@ -286,7 +287,19 @@ func main() {
 			}
 			t, typ := lex.ReadToken()
 			res.Toks = append(res.Toks, tok{typ, t.Str, file.Offset(t.Pos)})
-			if typ == simplelexer.EOF || typ == simplelexer.ERROR {
+			if typ == simplelexer.EOF {
+				break
+			}
+			if typ == simplelexer.ERROR {
+				// the driver has skipped to the end of the line (the inputs have none: to the
+				// end of the input) and reset the state machine: EOF must follow
+				for k := 0; k < 8; k++ {
+					_, typ2 := lex.ReadToken()
+					if typ2 == simplelexer.EOF {
+						res.EOFAfterError = true
+						break
+					}
+				}
 				break
 			}
 		}
@@ -426,6 +439,7 @@ func TestGeneratedLexer(t *testing.T) {
 				Toks  []refTok `json:"toks"`
 				Names []string `json:"names"`
 				Hung  bool     `json:"hung"`
+				EOFAfterError bool `json:"eof_after_error"`
 			}
 			json.Unmarshal(outs[k], &got)
 			rep.count(len(in) > 1)
@@ -453,6 +467,10 @@ func TestGeneratedLexer(t *testing.T) {
 				continue
 			}
 			// (a rule that can match the empty string never does: a token consumes at least one character)
+			if n := len(got.Toks); n > 0 && got.Toks[n-1].Type == 1 && !got.EOFAfterError {
+				rep.fail("C11/lexing-reaches-EOF/after-a-lexical-error", label, "after the lexical error the rest of the input was skipped and the state machine reset, yet EOF is not reported within 8 further reads")
+				continue
+			}
 			want, unaccounted := spec.reference(in)
 			_ = unaccounted
 			if fmt.Sprint(got.Toks) != fmt.Sprint(want) {
